@@ -26,8 +26,8 @@ def generate(rng, tier):
         probe = [str((1 + s + i) % (1 << 64)) for i in range(nc)] if s is not None else []
         cases.append({"op": "mh_streams", "n_chains": nc, "seed": None if s is None else str(s), "probe_seeds": probe})
     for kind, f in [("mh", "f64"), ("mh", "f32"), ("hmc", "f32"), ("hmc", "f64"), ("nuts", "f32"), ("nuts", "f64")]:
-        for s in [None, 42, rng.getrandbits(64)]:
-            nc = rng.choice([2, 4, 9])
+        for s, nc in [(None, rng.choice([2, 4, 9])), (42, rng.choice([2, 4, 9])), (rng.getrandbits(64), rng.choice([2, 4, 9])),
+                      (MAXU, 5), (MAXU - 1, 4), (rng.getrandbits(64), 64), (rng.getrandbits(64), rng.randint(33, 48))]:
             cases.append({"op": "traj", "kind": kind, "f": f, "seed": None if s is None else str(s),
                           "n_chains": nc, "n": 6, "d": 0})
     return cases
